@@ -6,7 +6,7 @@ import numpy as np
 
 import common
 from common import zl, ql, bl, lst, zlist, qlist, frac, natl
-from translate import Anchors
+from translate import Anchors, find_def
 from props.C11 import norm
 from props.C02 import rot24, vol_lit
 
@@ -46,6 +46,23 @@ def anchors(a: Anchors):
            and all(f"if{k}isNone:{k}=self.{k}" in norm(ast.unparse(fn)) for k in SIM_PARAMS) and "out._components=self._components.copy()" in norm(ast.unparse(fn)))
     a.fact("sim_accumulates", SM, "TomogramSimulator._simulate", "tomogram[sl] += fragment; cval=0 affine_transform without prefilter",
            lambda fn: "tomogram[sl]+=img_fragment" in norm(ast.unparse(fn)) and "ifimg_fragmentisnotNone" in norm(ast.unparse(fn)))
+    a.fact("projection_coordinates_as_modelled", SM, "TomogramSimulator.simulate_projection",
+           "(pos - rc)/scale . e + (n - 1)/2 per axis; axes normalised; glob_rotator = axes_to_rotator(cross(ex, ey), ey); fragments accumulated",
+           lambda fn: all(t in norm(ast.unparse(fn)) for t in [
+               "ex=np.asarray(xaxis,dtype=np.float32)/np.linalg.norm(xaxis)", "ey=np.asarray(yaxis,dtype=np.float32)/np.linalg.norm(yaxis)",
+               "rc=np.asarray(center,dtype=np.float32)", "pos_scaled=(mol.pos-rc)/self.scale", "xcoords=pos_scaled.dot(ex)+(shape[1]-1)/2",
+               "ycoords=pos_scaled.dot(ey)+(shape[0]-1)/2", "coords=np.stack((ycoords,xcoords),axis=1)", "glob_rotator=axes_to_rotator(cross(ex,ey),ey)",
+               "pool.add_task(yx,shape,img,mol.rotator[i],glob_rotator)", "projection[sl]+=img_fragment"]))
+    a.fact("tilt_series_as_modelled", SM, "TomogramSimulator.simulate_tilt_series",
+           "ex = (sin, 0, cos), ey = (0, 1, 0), rc = (shape/2 - 0.5) * scale, same coordinates and rotator as simulate_projection",
+           lambda fn: all(t in norm(ast.unparse(fn)) for t in [
+               "rads=np.deg2rad(list(degrees))", "ey=np.array([0,1,0],dtype=np.float32)", "rc=(np.array(shape,dtype=np.float32)/2-0.5)*self.scale",
+               "ex=np.array([np.sin(rad),0,np.cos(rad)],dtype=np.float32)", "pos_scaled=(mol.pos-rc)/self.scale", "xcoords=pos_scaled.dot(ex)+(shape[2]-1)/2",
+               "ycoords=pos_scaled.dot(ey)+(shape[1]-1)/2", "glob_rotator=axes_to_rotator(cross(ex,ey),ey)",
+               "pool.add_task(yx,shape[1:],img,mol.rotator[ci],glob_rotator,i)", "tilt_series[sl]+=img_fragment"])
+           and "rotator.inv()*glob_rotator" in norm(ast.unparse(find_def(a.load(SM)[1], "_simulate_projection_one"))))
+    a.state("simulator_stores_components_and_options_only", SM, {"TomogramSimulator": ["_components", "_corner_safe", "_order", "_scale"]},
+            "a TomogramSimulator stores its components and options only (nothing filtered or simulated is remembered between calls)")
     a.fact("sim_2d_projects_z", SM, "_simulate_2d_one", "np.sum(transformed[sl_src], axis=0); dst = sl_dst[1:]",
            lambda fn: all(t in norm(ast.unparse(fn)) for t in ["projected=np.sum(transformed[sl_src],axis=0)", "return(sl_dst[1:],projected)"]))
 
@@ -376,7 +393,7 @@ def run(ck: common.Check):
     a = Anchors(common.REPO)
     anchors(a)
     ck.write_anchors(PID, a)
-    ck.build(["C14"], ["C14/Property.v"])
+    ck.build(["C14"], ["C14/Property.v", "C14/PropertyProjection.v"], extra=["C14/Projection.v"])
     rng = np.random.default_rng(ck.seed + 1414)
     corr_sim(ck, rng)
     oracle_loadback(ck, rng)
